@@ -8,7 +8,7 @@ rm -rf "$wt"; git -C /repo worktree prune; git -C /repo worktree add -q --detach
 : > "$src/confirm.tsv"
 for d in "$src"/C*/; do
   id=$(basename "$d")
-  for k in 1 2 3; do
+  for k in 1 2 3 4 5; do
     p="$d/patch$k.diff"; [ -f "$d/patch$k.rebased.diff" ] && p="$d/patch$k.rebased.diff"
     [ -f "$p" ] || continue
     git -C "$wt" checkout -q -- . ; git -C "$wt" clean -fdq
